@@ -737,11 +737,15 @@ def assumptions():
         'registered lookup and with the lookups deregistered (C13_lookup_hypothesis_for_scanned_keys)',
         'the enumeration theorems assume the structural invariants QWF (C01/C02 invariants, well-kinded ids; hold in every state reached by '
         'editing calls: C13_reachable_states) and speak about runs that end within the fuel (WOk); that some fuel suffices is proved for '
-        'get_netlists / get_ports / get_pins in every such state and for get_instances / get_definitions when the design hierarchy is acyclic '
-        '(C13_get_*_terminates); not proved for get_libraries, get_cables, get_wires (their walks rely on visited sets)',
-        'get_cables / get_wires with selection ALL (cross-hierarchy closure): the enumeration is modelled and compared with the implementation '
-        'on every run, but only the clauses that do not depend on it are proved (no duplicates, pattern = filter of unfiltered, pattern order, '
-        'fast lookup = scan, callback on top); for INSIDE / OUTSIDE / BOTH the enumeration is proved exact (C13_get_cables, C13_get_wires)',
+        'get_netlists / get_ports / get_pins in every such state and for get_instances / get_definitions / get_libraries / get_cables / '
+        'get_wires (every selection, ALL included) when the design hierarchy is acyclic (C13_get_*_terminates; the walks with visited sets '
+        'by a finite-universe measure on the unmarked identifiers)',
+        'get_cables / get_wires with selection ALL (cross-hierarchy closure): specified as the closure of wire_adj from the wires at the pins '
+        'the root leads to and proved exact for one root of any kind (C13_get_wires_all, C13_get_cables_all, C13_get_cables_all_candidates); '
+        'for a collection of roots under ALL: soundness (C13_get_wires_all_sound) and the enumeration-independent clauses; compared with the '
+        'implementation on every run',
+        'the five hierarchical queries: the candidate enumeration is the hier engine\'s (C11/C12); here the filter law over the references found '
+        '(C13_hier_filters_unfiltered), tied by the stage request H over roots of every kind and every selection, and by the oracle',
         'query sessions: every generated netlist is queried, then the values under the queried keys are edited in place (no element added or '
         'removed), then the same oracle cases and fresh correspondence cases are run again (the model side rebuilds the netlist from the '
         'extended history); a replay file of such a failure carries after_edits.n_pre and re-runs the first round before the edits',
